@@ -1,7 +1,271 @@
-(* C12 -- placeholder; theorems are added from proofs/ *)
-Require Import Coq.Lists.List Coq.NArith.NArith.
-From Mustache Require Import Res Manager.
+(* C12 -- shared components: one instance per distinct value, never lost by other edits. Statements only.
+   Model: Manager.shared_info with si_add / si_remove / si_merge / si_eqb (SharedComponentsInfo, component_mask.hpp:158-240),
+   Manager.pool / insts with new_inst / created_shared (getCreatedSharedComponent, entity_manager.cpp:162-176),
+   assign_shared / remove_shared (entity_manager.hpp:886-901, 834-843, entity_manager.cpp:207-233).
+   Proofs: proofs/SharedProofs.v. *)
+Require Import Coq.Lists.List Coq.NArith.NArith Coq.ZArith.ZArith Coq.Arith.Arith Coq.Bool.Bool.
+From Mustache Require Import Res Manager Palette MgrSpec Refine.
+From Mustache.proofs Require Import SharedProofs.
 Import ListNotations.
-Example C12_placeholder : mitems 5%N = [0; 2].
-Proof. vm_compute. reflexivity. Qed.
-Print Assumptions C12_placeholder.
+
+(* ---- 1. SharedComponentsInfo stays well-formed ----
+   si_wf: ids and data have the same length, ids are duplicate free, the mask has exactly the bits of ids *)
+Theorem C12_info_wellformed_preserved :
+  si_wf si_null /\
+  (forall s id i s', si_wf s -> si_add s id i = Ok s' -> si_wf s') /\
+  (forall s id s', si_wf s -> si_remove s id = Ok s' -> si_wf s') /\
+  (forall x, si_wf x -> si_wf (si_merge si_null x)).
+Proof. exact si_wf_preserved. Qed.
+Print Assumptions C12_info_wellformed_preserved.
+
+(* ---- 2. adding / replacing / removing one shared component leaves the others intact ----
+   si_get s id: the instance stored for id (data_[indexOf(id)]).  add and remove never fail on well-formed infos. *)
+Theorem C12_add_sets_one_keeps_others : forall s id i, si_wf s ->
+  exists s', si_add s id i = Ok s' /\ si_wf s' /\ si_get s' id = Some i /\
+             forall id', id' <> id -> si_get s' id' = si_get s id'.
+Proof. exact si_add_spec. Qed.
+Print Assumptions C12_add_sets_one_keeps_others.
+
+Theorem C12_remove_drops_one_keeps_others : forall s id, si_wf s ->
+  exists s', si_remove s id = Ok s' /\ si_wf s' /\ si_get s' id = None /\ mhas (si_mask s') id = false /\
+             forall id', id' <> id -> si_get s' id' = si_get s id'.
+Proof. exact si_remove_spec. Qed.
+Print Assumptions C12_remove_drops_one_keeps_others.
+
+(* the mask answers "has" exactly when an instance is stored *)
+Theorem C12_has_iff_stored : forall s id, si_wf s -> (mhas (si_mask s) id = true <-> exists i, si_get s id = Some i).
+Proof. exact si_get_has. Qed.
+Print Assumptions C12_has_iff_stored.
+
+(* a well-formed info with three entries (the hypotheses above are satisfiable) *)
+Definition sh3 : shared_info := {| si_mask := 14%N; si_ids := [3; 1; 2]; si_data := [0; 3; 4] |}.
+Example C12_sh3_wf : si_wf sh3 /\ si_get sh3 1 = Some 3 /\ si_remove sh3 1 = Ok {| si_mask := 12%N; si_ids := [3; 2]; si_data := [0; 4] |}.
+Proof.
+  split; [|split; reflexivity].
+  apply (si_add_wf {| si_mask := 10%N; si_ids := [3; 1]; si_data := [0; 3] |} 2 4); [|reflexivity].
+  apply (si_add_wf {| si_mask := 8%N; si_ids := [3]; si_data := [0] |} 1 3); [|reflexivity].
+  apply (si_add_wf si_null 3 0); [exact si_null_wf|reflexivity].
+Qed.
+
+(* ---- 3. merge ---- *)
+(* the only merge the Manager performs (clone: null().merge(info)) is the identity *)
+Theorem C12_merge_into_null_is_identity : forall x,
+  si_merge si_null x = x /\ forall id, si_get (si_merge si_null x) id = si_get x id.
+Proof. exact si_merge_null_spec. Qed.
+Print Assumptions C12_merge_into_null_is_identity.
+
+(* in general the argument's entries win and the receiver's other entries are kept ... *)
+Theorem C12_merge_lookup : forall s oth id, si_wf oth ->
+  si_get (si_merge s oth) id = match si_get oth id with Some v => Some v | None => si_get s id end.
+Proof. exact si_merge_get. Qed.
+Print Assumptions C12_merge_lookup.
+
+(* ... and the result is well-formed when the two sides have no id in common ... *)
+Theorem C12_merge_disjoint_wellformed : forall s oth, si_wf s -> si_wf oth ->
+  (forall id, In id (si_ids oth) -> ~ In id (si_ids s)) -> si_wf (si_merge s oth).
+Proof. exact si_merge_wf. Qed.
+Print Assumptions C12_merge_disjoint_wellformed.
+Example C12_merge_disjoint_example :
+  si_wf si_one /\ si_wf sh3 /\ (forall id, In id (si_ids sh3) -> ~ In id (si_ids si_one)) /\
+  si_merge si_one sh3 = {| si_mask := 15%N; si_ids := [3; 1; 2; 0]; si_data := [0; 3; 4; 7] |}.
+Proof.
+  split; [exact si_one_wf|]. split; [exact (proj1 C12_sh3_wf)|]. split; [|reflexivity].
+  intros id [<-|[<-|[<-|[]]]] [H|[]]; discriminate.
+Qed.
+
+(* ... FINDING: but not otherwise -- the general merge ("TODO: check me!") lists a common id twice. Not reachable
+   through the Manager, whose only call is on si_null. *)
+Theorem C12_merge_general_wellformed_refuted : exists s oth, si_wf s /\ si_wf oth /\ ~ si_wf (si_merge s oth).
+Proof. exact si_merge_wf_refuted. Qed.
+Print Assumptions C12_merge_general_wellformed_refuted.
+
+(* ---- 4. the instance pool: getCreatedSharedComponent ---- *)
+(* an instance with an equal value is already pooled under sid: that one is returned, the pool is unchanged *)
+Theorem C12_created_shared_reuses : forall s sid inst,
+  (exists j, In j (pool_of s sid) /\ inst_value s j = inst_value s inst) ->
+  let r := snd (created_shared s sid inst) in
+  In r (pool_of s sid) /\ inst_value s r = inst_value s inst /\
+  pool_of (fst (created_shared s sid inst)) sid = pool_of s sid.
+Proof. exact created_shared_reuses. Qed.
+Print Assumptions C12_created_shared_reuses.
+
+(* otherwise the fresh instance is returned and recorded *)
+Theorem C12_created_shared_records : forall s sid inst,
+  (forall j, In j (pool_of s sid) -> inst_value s j <> inst_value s inst) ->
+  snd (created_shared s sid inst) = inst /\
+  pool_of (fst (created_shared s sid inst)) sid = pool_of s sid ++ [inst].
+Proof. exact created_shared_records. Qed.
+Print Assumptions C12_created_shared_records.
+
+(* the pools of the other shared types and the instance table are never touched *)
+Theorem C12_created_shared_frame : forall s sid inst,
+  insts (fst (created_shared s sid inst)) = insts s /\
+  forall sid', sid' <> sid -> pool_of (fst (created_shared s sid inst)) sid' = pool_of s sid'.
+Proof. intros s sid inst. split; [apply created_shared_insts|intros sid'; apply created_shared_other]. Qed.
+Print Assumptions C12_created_shared_frame.
+
+(* the invariant: within one sid, distinct pooled instances have distinct values and no instance is pooled twice
+   (pool_inj); pooled instance numbers are indices into insts (pool_valid); pool_wf is both *)
+Theorem C12_pool_invariant_preserved : forall s sid inst,
+  (pool_inj s -> pool_inj (fst (created_shared s sid inst))) /\
+  (inst < length (insts s) -> pool_wf s -> pool_wf (fst (created_shared s sid inst))).
+Proof. exact created_shared_pool_invariant. Qed.
+Print Assumptions C12_pool_invariant_preserved.
+
+Theorem C12_pool_invariant_initial_and_alloc :
+  (forall n cis, pool_wf (init n cis)) /\
+  (forall s sid v, pool_wf s -> pool_wf (fst (new_inst s sid v))) /\
+  (forall s sid v, pool_wf s -> pool_wf (fst (alloc_shared s sid v))).
+Proof. split; [exact init_pool_wf|]. split; [exact new_inst_wf|exact alloc_shared_wf]. Qed.
+Print Assumptions C12_pool_invariant_initial_and_alloc.
+
+(* alloc_shared s sid v = created_shared after new_inst: exactly what assignShared does before it moves the entity *)
+Theorem C12_assign_shared_uses_alloc : forall s h sid v,
+  assign_shared s h sid v =
+  (do l <- nth_res (locs s) (N.to_nat (fst h));
+   let s1 := fst (alloc_shared s sid v) in
+   let inst := snd (alloc_shared s sid v) in
+   match l_arch l with
+   | None => Err OobIndex
+   | Some pai =>
+     do pa <- nth_res (archs s1) pai;
+     do sh <- si_add (am_shared pa) sid inst;
+     do r <- get_arch s1 (am_mask pa) sh;
+     if Nat.eqb (snd r) pai then Ok (fst r) else external_move (fst r) (snd r) h pai (l_idx l) 0%N
+   end).
+Proof. exact assign_shared_alloc. Qed.
+Print Assumptions C12_assign_shared_uses_alloc.
+
+(* the instance handed out is pooled under sid and holds the requested value *)
+Theorem C12_alloc_result : forall s sid v,
+  let r := snd (alloc_shared s sid v) in
+  In r (pool_of (fst (alloc_shared s sid v)) sid) /\ inst_value (fst (alloc_shared s sid v)) r = v.
+Proof. exact alloc_shared_result. Qed.
+Print Assumptions C12_alloc_result.
+
+(* ONE INSTANCE PER VALUE: after an allocation of value v under sid, any later allocation of v under sid -- in any
+   state s2 whose pool and instance table extend the earlier ones (pool_le) and keep the invariant -- hands out the
+   very same instance ... *)
+Theorem C12_equal_values_share_one_instance : forall s sid v s2, pool_wf s ->
+  pool_le (fst (alloc_shared s sid v)) s2 -> pool_wf s2 ->
+  snd (alloc_shared s2 sid v) = snd (alloc_shared s sid v).
+Proof. exact alloc_shared_same_value. Qed.
+Print Assumptions C12_equal_values_share_one_instance.
+
+(* ... and PER DISTINCT VALUE: a different value never gets that instance *)
+Theorem C12_distinct_values_distinct_instances : forall s sid v s2 w, pool_wf s ->
+  pool_le (fst (alloc_shared s sid v)) s2 -> v <> w ->
+  snd (alloc_shared s2 sid w) <> snd (alloc_shared s sid v).
+Proof. exact alloc_shared_distinct_values. Qed.
+Print Assumptions C12_distinct_values_distinct_instances.
+
+(* the hypotheses are satisfiable: allocate 5, then 6 (and a value of another type), then 5 again *)
+Definition st0 : mst := init 1 [].
+Definition st2 : mst := fst (alloc_shared (fst (alloc_shared (fst (alloc_shared st0 3 5%Z)) 3 6%Z)) 1 5%Z).
+Example C12_pool_example :
+  pool_wf st0 /\ pool_le (fst (alloc_shared st0 3 5%Z)) st2 /\ pool_wf st2 /\
+  (exists j, In j (pool_of st2 3) /\ inst_value st2 j = 5%Z) /\
+  (forall j, In j (pool_of st2 3) -> inst_value st2 j <> 7%Z) /\
+  snd (alloc_shared st0 3 5%Z) = 0 /\ snd (alloc_shared st2 3 5%Z) = 0 /\ snd (alloc_shared st2 3 6%Z) = 1 /\
+  snd (alloc_shared st2 3 7%Z) = 3 /\ pool st2 = [[]; [2]; []; [0; 1]].
+Proof.
+  split; [apply init_pool_wf|]. split.
+  { unfold st2. eapply pool_le_trans; [apply alloc_shared_le|apply alloc_shared_le]. }
+  split; [unfold st2; repeat apply alloc_shared_wf; apply init_pool_wf|].
+  split; [exists 0; split; [vm_compute; auto|reflexivity]|].
+  split; [|repeat split; vm_compute; reflexivity].
+  intros j Hj. vm_compute in Hj. destruct Hj as [<-|[<-|[]]]; vm_compute; discriminate.
+Qed.
+
+(* ---- the archetype key ---- *)
+(* archetypes are keyed by (mask, data vector) -- si_eqb ignores the ids vector.  When every stored instance belongs
+   to the type it is stored under (ty i: the type of instance i; in the Manager fst (nth i insts)), the key
+   determines the lookups, whatever the order in which the types were assigned ... *)
+Theorem C12_key_determines_lookups : forall ty a b, si_wf a -> si_wf b -> si_typed ty a -> si_typed ty b ->
+  si_eqb a b = true -> forall id, si_get a id = si_get b id.
+Proof. exact si_eqb_typed. Qed.
+Print Assumptions C12_key_determines_lookups.
+
+(* ... and only then *)
+Theorem C12_key_without_typing_refuted :
+  exists a b, si_wf a /\ si_wf b /\ si_eqb a b = true /\ exists id, si_get a id <> si_get b id.
+Proof. exact si_eqb_untyped_refuted. Qed.
+Print Assumptions C12_key_without_typing_refuted.
+
+(* ---- 5. on whole scripts ---- *)
+Definition cis2 : list cinfo := [pal_info 0 0; pal_info 1 0].
+(* the shared info of the archetype an entity lives in *)
+Definition shared_of (s : mst) (h : handle) : shared_info :=
+  match nth_error (locs s) (N.to_nat (fst h)) with
+  | Some l => match l_arch l with
+              | Some ai => match nth_error (archs s) ai with Some a => am_shared a | None => si_null end
+              | None => si_null
+              end
+  | None => si_null
+  end.
+Definition inst_of (r : res (mst * list handle)) (k sid : nat) : option nat :=
+  match r with Ok (s, issued) => si_get (shared_of s (resolve issued k)) sid | Err _ => None end.
+(* every archetype's shared info is well-formed and typed by the instance table *)
+Fixpoint nodupb (l : list nat) : bool :=
+  match l with [] => true | x :: t => negb (existsb (Nat.eqb x) t) && nodupb t end.
+Definition si_wfb (sh : shared_info) : bool :=
+  Nat.eqb (length (si_ids sh)) (length (si_data sh)) && nodupb (si_ids sh) &&
+  forallb (fun id => Bool.eqb (mhas (si_mask sh) id) (existsb (Nat.eqb id) (si_ids sh))) (seq 0 MASK_BITS).
+Definition archs_ok (r : res (mst * list handle)) : bool :=
+  match r with
+  | Ok (s, _) => forallb (fun a => si_wfb (am_shared a) &&
+                   forallb (fun p : nat * nat => Nat.eqb (fst (nth (snd p) (insts s) (O, 0%Z))) (fst p))
+                           (combine (si_ids (am_shared a)) (si_data (am_shared a)))) (archs s)
+  | Err _ => false
+  end.
+
+(* three entities; 0 and 1 get the value 5 for shared type 3, entity 2 gets 6: 0 and 1 observe ONE instance,
+   entity 2 another one; two instances of type 3 are pooled although three were constructed *)
+Definition script_share : list xop :=
+  [XoCreate 0 1 [] false; XoCreate 0 1 [] false; XoCreate 0 1 [] false;
+   XoAssignShared 0 3 5%Z; XoAssignShared 1 3 5%Z; XoAssignShared 2 3 6%Z]%N.
+Example C12_equal_values_one_instance_on_script :
+  let r := mrun true 4 cis2 script_share in
+  inst_of r 0 3 = Some 0 /\ inst_of r 1 3 = Some 0 /\ inst_of r 2 3 = Some 2 /\
+  match r with Ok (s, _) => pool_of s 3 = [0; 2] /\ length (insts s) = 3 /\ inst_value s 0 = 5%Z /\ inst_value s 2 = 6%Z
+             | Err _ => False end /\
+  archs_ok r = true /\ x_viol (xrun 4 cis2 script_share) = 0 /\
+  refines_on true 4 cis2 script_share = true /\ refines_on false 4 cis2 script_share = true.
+Proof. vm_compute. repeat split; reflexivity. Qed.
+
+(* one entity with three shared types; replacing one and then removing one keeps the other two *)
+Definition script_three : list xop :=
+  [XoCreate 0 1 [] false; XoAssignShared 0 3 5%Z; XoAssignShared 0 1 7%Z; XoAssignShared 0 2 8%Z]%N.
+Example C12_remove_one_of_three_on_script :
+  let r0 := mrun true 4 cis2 script_three in
+  let r1 := mrun true 4 cis2 (script_three ++ [XoRemoveShared 0 1]) in
+  let r2 := mrun true 4 cis2 (script_three ++ [XoAssignShared 0 1 9%Z]) in
+  (inst_of r0 0 3, inst_of r0 0 1, inst_of r0 0 2) = (Some 0, Some 1, Some 2) /\
+  (inst_of r1 0 3, inst_of r1 0 1, inst_of r1 0 2) = (Some 0, None, Some 2) /\
+  (inst_of r2 0 3, inst_of r2 0 1, inst_of r2 0 2) = (Some 0, Some 3, Some 2) /\
+  archs_ok r1 = true /\ archs_ok r2 = true /\
+  refines_on true 4 cis2 (script_three ++ [XoRemoveShared 0 1]) = true /\
+  refines_on true 4 cis2 (script_three ++ [XoAssignShared 0 1 9%Z]) = true.
+Proof. vm_compute. repeat split; reflexivity. Qed.
+
+(* the same on single steps of the Manager: assigning an equal value to a second entity yields the same instance;
+   removing the shared component from one entity (it moves, RBool true) does not take it from the other *)
+Example C12_step_shares_instance :
+  match mrun true 4 cis2 [XoCreate 0 1 [] false; XoCreate 0 1 [] false]%N with
+  | Ok (s, [h0; h1]) =>
+    match step s (OAssignShared h0 3 5%Z) with
+    | Ok (s1, RNone) =>
+      match step s1 (OAssignShared h1 3 5%Z) with
+      | Ok (s2, RNone) =>
+        si_get (shared_of s2 h0) 3 = Some 0 /\ si_get (shared_of s2 h1) 3 = Some 0 /\ pool_of s2 3 = [0] /\
+        match step s2 (ORemoveShared h0 3) with
+        | Ok (s3, RBool true) => si_get (shared_of s3 h0) 3 = None /\ si_get (shared_of s3 h1) 3 = Some 0
+        | _ => False
+        end
+      | _ => False
+      end
+    | _ => False
+    end
+  | _ => False
+  end.
+Proof. vm_compute. repeat split; reflexivity. Qed.
